@@ -273,7 +273,8 @@ def continues (cut : Str) : Bool := endsWith (rstrip cut) [' ', '&'] && !cut.con
 def stepData (cfg : Cfg) (st : LState) (line : Str) (lineIsComment : Bool) (evs1 : List Event)
     (raw1 : List Str) : List Event × LState :=
   if hasRaise evs1 then (evs1, st)
-  else if (line.take Gen.blankSpaceContinue).contains '#' && !lineIsComment then
+  else if startsWith (lstrip (line.take Gen.blankSpaceContinue)) ['#'] && !lineIsComment then
+    -- fix 453a5e4: only a `#` that starts the line marks the vertical format (`2 0 #1` is a plain cell)
     (evs1 ++ [.raise .unsupported], st)
   else
     let cut := line.take cfg.lineLength
@@ -294,12 +295,20 @@ def stepLine (cfg : Cfg) (st : LState) (line0 : Str) : List Event × LState :=
     stepData cfg st line lineIsComment (flushInput cfg st.blockType st.raw) []
   else stepData cfg st line lineIsComment [] st.raw
 
+/-- the `break` of `read_data` (fixes c74af97, fec410e): in the blank-line branch, after `flush_block`,
+    `if first_block + block_counter >= 3: break` — reading stops at the blank line that ends the data block,
+    blocks being counted from the block the file starts in -/
+def stopsAfter (cfg : Cfg) (line0 : Str) (st' : LState) : Bool :=
+  (strip (expandtabs Gen.tabSize line0)).isEmpty && decide (cfg.firstBlock.value + st'.blockCounter ≥ 3)
+
 /-- the loop of `read_data` followed by the final `flush_block` -/
 def goLines (cfg : Cfg) : LState → List Str → List Event
   | st, [] => (flushBlock cfg st).1
   | st, l :: ls =>
     let (evs, st') := stepLine cfg st l
-    if hasRaise evs then evs else evs ++ goLines cfg st' ls
+    if hasRaise evs then evs
+    else if stopsAfter cfg l st' then evs ++ (flushBlock cfg st').1
+    else evs ++ goLines cfg st' ls
 
 def initState (cfg : Cfg) : LState :=
   { blockCounter := 0, blockType := cfg.firstBlock, continueInput := false, hasNonComments := false, raw := [] }
